@@ -913,3 +913,42 @@ Proof.
   assert (HZ : (c_first cfg <=? 0) = false -> next_seq_of (s_entries empty_state) = 0) by (intros _; reflexivity).
   destruct (index_chain_st4 cfg c 0 [] empty_state st St4_empty ND FR BO HZ H) as (seen' & [A B C D]). auto.
 Qed.
+
+(* the parser's envelopes come in input order and name existing inputs *)
+Definition envelopes_ok (c : list block) : Prop := Forall (fun blk => Forall envs_ok (tl blk)) c.
+
+Lemma index_chain_count : forall cfg c h seen st st',
+  St4 seen st -> NoDup (chain_txids c) -> (forall x, In x (chain_txids c) -> ~ In x seen /\ x <> 0) ->
+  Forall block_ok c -> envelopes_ok c ->
+  ((c_first cfg <=? h) = false -> next_seq_of (s_entries st) = 0) ->
+  index_chain cfg h c st = Ok st' ->
+  next_seq_of (s_entries st') = next_seq_of (s_entries st) + count_chain cfg h c.
+Proof.
+  intros cfg c. induction c as [|blk r IH]; intros h seen st st' HS ND FR BO EO HZ H; cbn [index_chain] in H.
+  - inv H. cbn. lia.
+  - dbind H. rename a into st1. unfold chain_txids in ND, FR. cbn [map concat] in ND, FR.
+    apply NoDup_app_iff in ND. destruct ND as (ND1 & ND2 & ND3).
+    apply Forall_cons_iff in BO. destruct BO as [BO1 BO2].
+    apply Forall_cons_iff in EO. destruct EO as [EO1 EO2].
+    assert (FR1 : forall x, In x (map t_id blk) -> ~ In x seen /\ x <> 0).
+    { intros x Hx. apply FR. apply in_or_app. auto. }
+    pose proof (index_block_count cfg h blk seen st st1 HS ND1 FR1 BO1 EO1 HZ E) as KB.
+    destruct (index_block_st4 cfg h blk seen st st1 HS ND1 FR1 BO1 HZ E) as (s1 & HS1 & HQ1 & HE1).
+    assert (FR2 : forall x, In x (chain_txids r) -> ~ In x s1 /\ x <> 0).
+    { intros x Hx. assert (AB : ~ In x seen /\ x <> 0) by (apply FR; apply in_or_app; auto). destruct AB as [A B].
+      split; auto. intro Hs. apply HQ1 in Hs. destruct Hs as [Hs|Hs]; [exact (ND3 x Hs Hx) | contradiction]. }
+    assert (HZ1 : (c_first cfg <=? h + 1) = false -> next_seq_of (s_entries st1) = 0).
+    { intro Hlt. assert (Hlt' : (c_first cfg <=? h) = false) by lia. rewrite (HE1 Hlt'). auto. }
+    rewrite (IH (h + 1) s1 st1 st' HS1 ND2 FR2 BO2 EO2 HZ1 H). cbn [count_chain]. lia.
+Qed.
+
+Theorem count_invariant : forall cfg c st,
+  chain_ok c -> envelopes_ok c -> index_chain cfg 0 c empty_state = Ok st ->
+  next_seq_of (s_entries st) = count_chain cfg 0 c.
+Proof.
+  intros cfg c st (ND & NZ & BO) EO H.
+  assert (FR : forall x, In x (chain_txids c) -> ~ In x (@nil N) /\ x <> 0).
+  { intros x Hx. split; [intros []|]. intro. subst. contradiction. }
+  assert (HZ : (c_first cfg <=? 0) = false -> next_seq_of (s_entries empty_state) = 0) by (intros _; reflexivity).
+  rewrite (index_chain_count cfg c 0 [] empty_state st St4_empty ND FR BO EO HZ H). cbn. lia.
+Qed.
